@@ -235,6 +235,8 @@ CCloseEv(e) ==
   IF c \notin DOMAIN conns THEN Skip
   ELSE IF conns[c].st = "idle" THEN M!IdleExpire(c) /\ Fr /\ Keep
   ELSE IF conns[c].st = "connecting" THEN M!ConnectFail(c) /\ Fr /\ Keep
+  \* a metadata refresh that was not answered within one TTL: the discover loop gives up on the exchange
+  ELSE IF conns[c].st = "busy" /\ conns[c].cur[1] = 0 /\ ~conns[c].cut THEN M!Cut(c) /\ Fr /\ Keep
   ELSE conns[c].st = "dead" /\ Skip
 
 Step(e) ==
